@@ -16,9 +16,12 @@ def _table(job):
     N, lo, hi = job
     from .. import lib
     mx = lib.cs_mixed
-    tab = lib.quiet(mx.mixed_steps_tabulation, N, N - 1)
     bad = []
     cnt = 0
+    try:
+        tab = lib.quiet(mx.mixed_steps_tabulation, N, N - 1)
+    except Exception as e:
+        return 0, [(N, N - 1, "mixed_steps_tabulation(%d,%d) raised %s: %s" % (N, N - 1, type(e).__name__, e), "n/a")]
     for n in range(lo, hi + 1):
         for s in range(1, N):
             if s > n - 1 and s != max(n - 1, 1):
